@@ -259,6 +259,23 @@ def run(tier: str, seed: int) -> Report:
     info: dict[str, Any] = {}
     asyncio.run(drive(tier, seed, corpus, exp, info))
     mark("drive")
+    # ground truth for "parsable": the codec's verdict taken in pristine interpreters, not in this process (which
+    # has parsed everything above in some order); the two orders must agree with each other
+    truth, disagree = E.pristine_verdicts([s["hex"] for t in corpus.traces for s in t["steps"]])
+    for d in disagree[:20]:
+        rep.violate("E0/the-same-request-is-classified-differently-depending-on-what-was-parsed-before",
+                    {"sid": int(d["hex"][:2], 16)}, d)
+    repinned = 0
+    for t in corpus.traces:
+        for s in t["steps"]:
+            pdu = bytes.fromhex(s["hex"])
+            want = False if E.iso_wellformed(pdu) is False else truth[s["hex"]]
+            if s["p"] != want:
+                repinned += 1
+                s["p"] = want
+    rep.extra["parsable_ground_truth"] = {"distinct_requests": len(truth), "order_disagreements": len(disagree),
+                                          "differs_from_in_process_verdict": repinned}
+    mark("pristine-classification")
     # ---- 4. TLC validates every exchange
     verdicts = corpus.validate(parallel=5, steps_per_batch=36000)
     for res in corpus.tlc_results:
